@@ -65,9 +65,6 @@ type palsCase struct {
 	// Family: the query carries a second, exact copy of the (mutated) repeat further along: a repeat
 	// family. Both query copies must be recovered against the one target copy (ordinary comparison only).
 	Family bool `json:"family,omitempty"`
-	// NRun > 0: a run of NRun letters N (an assembly gap) in the target, at least a repeat length away
-	// from the copy.
-	NRun  int    `json:"n_run,omitempty"`
 	SeedT uint64 `json:"seed_t"`
 	SeedQ uint64 `json:"seed_q"`
 	SeedM uint64 `json:"seed_m"` // mutation positions
@@ -125,9 +122,11 @@ type built struct {
 	// PALS for the strand on which it must be found
 	t0, tl, q0, ql int
 	q1, ql1        int // second query copy of a repeat family (ql1 == 0: none)
+	// inverted repeat in a self comparison: the same pair of copies seen from the other copy (the
+	// complement search may report either image; altTl == 0: none)
+	altT0, altTl, altQ0, altQl int
 	diffs          int
 	minID          float64
-	nruns          int // N runs actually placed
 }
 
 func (c palsCase) build() built {
@@ -223,6 +222,17 @@ func (c palsCase) build() built {
 	if c.Self {
 		// second copy further along the same sequence, not overlapping the first
 		q0 := tlen/2 + L/2 + (tlen/2-3*L-5)*c.Q0Pct/1000
+		if c.Reverse {
+			// an inverted repeat: the second copy is the reverse complement of the first. On the
+			// complement strand (query = reverse complement of the whole sequence) the first copy in
+			// the target faces the image of the second copy, and the second copy in the target faces
+			// the image of the first.
+			copy(b.target[q0:], revcomp(copyU))
+			b.query = b.target
+			b.q0, b.ql = tlen-q0-len(copyU), len(copyU)
+			b.altT0, b.altTl, b.altQ0, b.altQl = q0, len(copyU), tlen-b.t0-L, L
+			return b
+		}
 		copy(b.target[q0:], copyU)
 		b.query = b.target
 		b.q0, b.ql = q0, len(copyU)
@@ -245,18 +255,6 @@ func (c palsCase) build() built {
 	b.q0, b.ql = q0, len(ins)
 	if q1 >= 0 {
 		b.q1, b.ql1 = q1, len(ins)
-	}
-	if c.NRun > 0 {
-		// a run of N in the target, at least a repeat length away from the copy. (The query stays
-		// over A,C,G,T: the filter advances its tube recycling only on valid k-mers, so a run of N
-		// in the query shifts every later retirement - a behaviour outside what the statements of
-		// C14 and C15 quantify over, noted in DESIGN.md.)
-		if p := int(g.next() % uint64(tlen-c.NRun)); p+c.NRun+L <= b.t0 || p >= b.t0+L+L {
-			for i := 0; i < c.NRun; i++ {
-				b.target[p+i] = 'N'
-			}
-			b.nruns++
-		}
 	}
 	if c.Reverse {
 		// PALS reports complement-strand hits in the coordinates of the reverse-complemented query
@@ -362,6 +360,9 @@ func check(c palsCase) *vlib.Failure {
 					if 10*overlap(h.Abpos, h.Aepos, b.t0, b.t0+b.tl) >= 6*b.tl && 10*overlap(h.Bbpos, h.Bepos, b.q0, b.q0+b.ql) >= 6*b.ql {
 						hit = true
 					}
+					if b.altTl > 0 && 10*overlap(h.Abpos, h.Aepos, b.altT0, b.altT0+b.altTl) >= 6*b.altTl && 10*overlap(h.Bbpos, h.Bepos, b.altQ0, b.altQ0+b.altQl) >= 6*b.altQl {
+						hit = true
+					}
 				}
 				if !hit {
 					nearMinMissed = true
@@ -371,6 +372,9 @@ func check(c palsCase) *vlib.Failure {
 			found2 := b.ql1 == 0
 			for _, h := range hits {
 				if 10*overlap(h.Abpos, h.Aepos, b.t0, b.t0+b.tl) >= 6*b.tl && 10*overlap(h.Bbpos, h.Bepos, b.q0, b.q0+b.ql) >= 6*b.ql {
+					found = true
+				}
+				if b.altTl > 0 && 10*overlap(h.Abpos, h.Aepos, b.altT0, b.altT0+b.altTl) >= 6*b.altTl && 10*overlap(h.Bbpos, h.Bepos, b.altQ0, b.altQ0+b.altQl) >= 6*b.altQl {
 					found = true
 				}
 				if b.ql1 > 0 && 10*overlap(h.Abpos, h.Aepos, b.t0, b.t0+b.tl) >= 6*b.tl && 10*overlap(h.Bbpos, h.Bepos, b.q1, b.q1+b.ql1) >= 6*b.ql1 {
@@ -440,6 +444,8 @@ func gen(t *rapid.T) palsCase {
 	switch rapid.IntRange(0, 4).Draw(t, "mode") {
 	case 0:
 		c.Self = true
+		// an inverted repeat within the one sequence, found by the complement search
+		c.Reverse = rapid.IntRange(0, 2).Draw(t, "inverted") == 0
 	case 1, 2:
 		c.Reverse = true
 	}
@@ -465,15 +471,14 @@ func gen(t *rapid.T) palsCase {
 	if !c.Self && rapid.IntRange(0, 4).Draw(t, "family") == 0 {
 		c.Family = true
 	}
-	if !c.Self && rapid.IntRange(0, 3).Draw(t, "n-runs") == 0 {
-		c.NRun = rapid.IntRange(5, 60).Draw(t, "n-run-len")
-	}
 	return c
 }
 
 func classes(c palsCase) []string {
 	var l []string
 	switch {
+	case c.Self && c.Reverse:
+		l = append(l, "self", "self-inverted-repeat")
 	case c.Self:
 		l = append(l, "self")
 	case c.Reverse:
@@ -498,9 +503,6 @@ func classes(c palsCase) []string {
 	}
 	if c.Family && !c.Self {
 		l = append(l, "repeat-family")
-	}
-	if b.nruns > 0 {
-		l = append(l, "n-run-in-target")
 	}
 	return l
 }
@@ -551,5 +553,5 @@ func TestNearMinimumRecall(t *testing.T) {
 
 func TestPALS(t *testing.T) {
 	vlib.Run(t, vlib.Prop[palsCase]{Name: "soundness-and-recall", Checks: 200, Thorough: 9600, Gen: gen, Check: check, Classes: classes,
-		MinFrac: map[string]float64{"self": 0.1, "reverse-strand": 0.2, "indels": 0.08, "near-minimum-length": 0.08, "near-minimum-with-net-deletions": 0.08, "repeat-family": 0.08, "n-run-in-target": 0.08}})
+		MinFrac: map[string]float64{"self": 0.1, "reverse-strand": 0.2, "indels": 0.08, "near-minimum-length": 0.08, "near-minimum-with-net-deletions": 0.08, "repeat-family": 0.08}})
 }
